@@ -442,6 +442,13 @@ class Translator:
     t_SetComp = t_ListComp
     t_DictComp = t_ListComp
 
+    def t_NamedExpr(self, n):
+        v = self.tr(n.value)
+        if isinstance(n.target, ast.Name):
+            self.env[n.target.id] = v          # (x := e): the value, and x is bound from here on
+            self.__dict__.setdefault("_named", {})[n.target.id] = v
+        return v
+
     def t_Lambda(self, n):
         a = n.args
         if a.vararg or a.kwarg or a.kwonlyargs or a.defaults or a.kw_defaults:
